@@ -70,7 +70,11 @@ func parseWorld(initS, progsS string) concWorld {
 	return w
 }
 
-func slotID(slot int) string { return fmt.Sprintf("TestT%d - %d", slot/100, slot%100) }
+// thread i runs the test named TestT followed by i times "x": every name is a proper prefix of
+// the next one, as sibling tests often are (TestUser, TestUserList)
+func threadName(i int) string { return "TestT" + strings.Repeat("x", i) }
+
+func slotID(slot int) string { return fmt.Sprintf("%s - %d", threadName(slot/100), slot%100) }
 
 // runSchedule executes the world under `prefix` (then lowest-enabled-first); returns the effective
 // schedule, per step the enabled set (for the DFS), the final file and the outcomes.
@@ -104,7 +108,7 @@ func runConc(w concWorld, dir string, prefix []int) (eff []int, enabledAt [][]in
 	}
 	for i := 0; i < n; i++ {
 		S.resume[i] = make(chan struct{})
-		ts[i] = &concT{name: fmt.Sprintf("TestT%d", i)}
+		ts[i] = &concT{name: threadName(i)}
 		i := i
 		S.cur = i
 		go func() {
@@ -114,6 +118,10 @@ func runConc(w concWorld, dir string, prefix []int) (eff []int, enabledAt [][]in
 				if len(ts[i].events) == before {
 					ts[i].events = append(ts[i].events, "p") // no event: the call passed
 				}
+			}
+			// the test finishes: its registered cleanups run (while other tests may be mid-way)
+			for j := len(ts[i].cleanups) - 1; j >= 0; j-- {
+				ts[i].cleanups[j]()
 			}
 			S.post <- verifAction{i, actDone, "done"}
 		}()
@@ -179,8 +187,10 @@ func runConc(w concWorld, dir string, prefix []int) (eff []int, enabledAt [][]in
 	for i := 0; i+1 < len(lines); i++ {
 		l := lines[i]
 		if strings.HasPrefix(l, "[TestT") && strings.HasSuffix(l, "]") {
-			var ti, k int
-			fmt.Sscanf(l, "[TestT%d - %d]", &ti, &k)
+			var k int
+			nm := l[1:strings.Index(l, " - ")]
+			ti := len(nm) - len("TestT")
+			fmt.Sscanf(l[strings.Index(l, " - ")+3:], "%d]", &k)
 			body := []string{}
 			j := i + 1
 			for j < len(lines) && lines[j] != "---" {
